@@ -216,7 +216,7 @@ class Decider:
         return frozenset(out)
 
     # ------------------------------------------------------------------ statements
-    def walk(self, fi: FuncInfo, start: Node, stop, aliases: frozenset, depth: int = 0, env0: dict | None = None):
+    def walk(self, fi: FuncInfo, start: Node, stop, aliases: frozenset, depth: int = 0, env0: dict | None = None, loops: str = "end"):
         """Enumerate paths from `start` until stop(node) (not tested on start) or a return.
         Yields (end node or None, env, benv, outs) where outs are the values appended / returned on the path."""
         results = []
@@ -300,6 +300,18 @@ class Decider:
                 results.append((None, env, benv, outs))
             for s, _lab in succ:
                 if s.id in seen and s.kind in ("for", "test", "while"):
+                    flow = self.prog.flow(fi)
+                    body = flow.loop_body_nodes(s) if loops == "havoc" and s is not start else set()
+                    if body:
+                        # second arrival at a loop head: the loop is left with everything its body assigns unknown
+                        assigned = {d.var for b in body | {s} for d in flow.defs_at.get(b, [])}
+                        env2 = {k: (frozenset({UNKNOWN}) if k in assigned or k.split(".")[0] in assigned else v) for k, v in env.items() if k != "__aliases__"}
+                        benv2 = {k: v for k, v in benv.items() if k not in assigned}
+                        al2 = frozenset(al for al in aliases if al.partition("=")[2].split(".")[0] not in assigned)
+                        for x, lab2 in s.succ:
+                            if lab2 in ("done", "F") and x not in body:
+                                stack.append((x, env2, benv2, outs, seen + (x.id,), al2))
+                        continue
                     results.append((s, env, benv, outs))
                     continue
                 stack.append((s, env, benv, outs, seen + (s.id,), aliases))
@@ -311,7 +323,7 @@ class Decider:
         """Values the function may return under the valuation."""
         flow = self.prog.flow(fi)
         out: set = set()
-        for end, _env, _benv, outs in self.walk(fi, flow.cfg.entry, None, aliases, depth, env0=env0):
+        for end, _env, _benv, outs in self.walk(fi, flow.cfg.entry, None, aliases, depth, env0=env0, loops="havoc"):
             if end is not None and end.kind == "stmt" and isinstance(end.ast, ast.Return) and outs:
                 out |= outs[-1]
             elif end is None or end.kind == "exit":
